@@ -35,6 +35,10 @@ pub struct World {
     digest: Sm3,
     pub objs: crate::objs::Objs,
     pub samples: Vec<Value>,
+    /// secret scalars recovered from library outputs, by group ("sm2" / "sm9"); C14 statistics
+    pub observed: Vec<(String, Vec<u8>)>,
+    /// the world consumed real randomness (C14-M3): excluded from the run digest
+    pub nondeterministic: bool,
 }
 
 pub fn fnv(parts: &[&[u8]]) -> u64 {
@@ -82,6 +86,8 @@ impl World {
             digest: Sm3::new(),
             objs: crate::objs::Objs::default(),
             samples: vec![],
+            observed: vec![],
+            nondeterministic: false,
         }
     }
 
@@ -180,6 +186,9 @@ impl World {
         crate::runner::journal(&self.history, &op);
         self.history.push(op.clone());
         let name = op.get("op").and_then(|v| v.as_str()).unwrap_or("?").to_string();
+        if op.get("rng").and_then(|r| r.get("real")).and_then(|b| b.as_bool()) == Some(true) {
+            self.nondeterministic = true;
+        }
         self.note(format!("#{} {}", self.history.len(), op));
         self.bump(&format!("op.{name}"));
         let r = match name.as_str() {
@@ -192,6 +201,7 @@ impl World {
             n if n.starts_with("sm9.") => crate::ops_sm9::exec(self, n, &op),
             n if n.starts_with("entry.") => crate::ops_entry::exec(self, n, &op),
             n if n.starts_with("doc.") => crate::ops_doc::exec(self, n, &op),
+            n if n.starts_with("c14.") => crate::ops_c14::exec(self, n, &op),
             _ => Err(format!("unknown op '{name}'")),
         };
         crate::runner::journal_done();
